@@ -25,19 +25,21 @@ TRUSTED = [
     'registered functions, transform and formatter are pure functions of their arguments (a callback with interior state is outside the property)',
 ]
 ASSUMPTIONS = [
-    'C08_write_eq_format: formatter_keeps_strings — the value formatter returns None for FluentValue::String (otherwise finding D22; witness '
-    'C08_write_eq_format_refuted_by_string_formatter)',
+    'C08_write_eq_format: none — holds for every transform and every value formatter since D22 was fixed (format_pattern no longer runs '
+    'into_string, i.e. the formatter, on the resolved text); reverting that fix (tools/mutants/revert_D22) is caught by the corpus witness',
     'C08_cache_indep: cache_ok — every cached rules object computes what a freshly constructed one does; holds for the empty memoizer and is '
     'preserved by every call (part of the theorem), hence C08_history_indep has no hypothesis',
     'C08_args_order: distinct keys (with a repeated key the last write wins, so order matters by definition)',
 ]
 RULE = ('every C06 generator; per case the real bundle runs format_pattern, write_pattern, format_pattern again after formatting every other '
         'message (warm memoizer, earlier errors), format_pattern on a fresh bundle, and format_pattern with the arguments inserted in reverse, '
-        'through FromIterator and in every order (<= 4 keys); a share of the random bundles uses a formatter that handles strings (class D22)')
+        'on a bundle where every other message was formatted first, and format_pattern with the arguments inserted in reverse, through '
+        'FromIterator and in every order (<= 4 keys); value formatters none / numbers only / strings+numbers+None (the last one is the '
+        'configuration that exposed D22, now a regular part of every random batch) x transforms none / upper / brackets')
 MANIFEST = {
     'text': 'Rocq theorems over ALL bundles/arguments/patterns/fuel: format_pattern returns exactly the bytes write_pattern writes, with the '
-            'same errors, calls and memoizer (C08_write_eq_format: resolve\'s single-text shortcut vs write; excluded: a formatter that handles '
-            'String values = finding D22 with a machine-checked witness); the three stringification paths are one function; the result is '
+            'same errors, calls and memoizer (C08_write_eq_format: resolve\'s single-text shortcut vs write; for every transform and every '
+            'value formatter — D22, the formatter being run on the whole result by format_pattern only, is fixed and is a regression case); the three stringification paths are one function; the result is '
             'independent of the memoizer content (C08_cache_indep, by the two-run simulation of ResolverSim.v) and therefore of ANY history of '
             'earlier format/write calls on the bundle (C08_history_indep); FluentArgs collected from a permutation of distinct-key pairs are '
             'equal (C08_args_order).',
@@ -49,21 +51,14 @@ MANIFEST = {
 }
 
 
-def have_finding(fid):
-    import engine
-    return any(f['id'] == fid for f in engine.load_known().get('findings', []))
-
-
 def generate(rng, tier):
     yield ('limit-at-every-position', G.render(G.gen_limit_positions(rng, 'quick')))
     yield ('reference-graphs', G.render(G.gen_graphs(rng, tier)))
     yield ('missing-references', G.render(G.gen_missing(rng, tier)))
     yield ('selects', G.render(G.gen_selects(rng, tier)))
     yield ('numbers', G.render(G.gen_numbers(rng, tier)))
-    n = 2500 if tier == 'quick' else 50000
+    n = 3000 if tier == 'quick' else 60000
     yield ('random-bundles', G.render(G.gen_random(rng, n)))
-    if have_finding('D22'):
-        yield ('random-bundles-D22-class', G.render(G.gen_random(rng, n // 5, formatters=(b'all',))))
 
 
 def harness_for(name):
@@ -96,13 +91,6 @@ def oracle(case, out):
                                                                            fmt[0][:80], G.err_names(fmt[1])[:4])
     if extras.get('permall') != [b'true']:
         return 'purity: some insertion order of the same argument set gives a different result'
-    return None
-
-
-def classify(case, why):
-    if why.startswith('format_pattern and write_pattern differ'):
-        if G.case_info(case)['formatter'] == b'all':
-            return 'D22'
     return None
 
 
